@@ -60,7 +60,7 @@ INF = float("inf")
 
 
 def budget(tier):
-    return int(os.environ.get("VERIF_BUDGET", 0)) or {"quick": 2000, "thorough": 20000}[tier]
+    return int(os.environ.get("VERIF_BUDGET", 0)) or {"quick": 1500, "thorough": 15000}[tier]
 
 
 # ================================================================== generation
@@ -209,6 +209,8 @@ def corpus_cases():
         # no-op update of CORR / SD CORR blocks keeps the written numbers (f0abfd5), also (v)xn
         {"kind": "omega", "rec": "$OMEGA BLOCK(2) CORR\n2.25\n-.1 .25\n", "size": 2, "newcov": [2.25, -0.075, 0.25], "fixseq": [False], "same_values": True, "seed": 17},
         {"kind": "omega", "rec": "$SIGMA BLOCK(3) SD CORR\n0.25\n(0.20)x2\n0.2 0.1 1.5\n", "size": 3, "newcov": [1, 0, 1, 0, 0, 1], "fixseq": [False], "same_values": True, "seed": 18},
+        # split of a named (v)xn node of a BLOCK: the comment ends up after the last copy
+        {"kind": "omega", "rec": "$SIGMA BLOCK(2) CORREL\n0.00250 ; RUV_N59\n(.25)x2 ; RUV_P60\n", "size": 2, "newcov": [0.00375, 0.007654655446197431, 0.25], "fixseq": [False], "same_values": False, "seed": 19},
         {"kind": "omega", "rec": "$OMEGA FIX BLOCK(2) 0.1 0.01 0.2 FIX\n", "size": 2, "newcov": [0.1, 0.01, 0.2], "fixseq": [False], "same_values": True, "seed": 14},
         {"kind": "diag", "rec": "$OMEGA (0.1)x2 0.3\n", "edits": [[{"fix": True}, {}, {}]], "remove": [], "seed": 10},
         {"kind": "diag", "rec": "$OMEGA DIAG(3) 0.1 0.2 SD 0.3 ; c\n", "edits": [[{}, {"init": 0.09}, {}]], "remove": [2], "seed": 11},
@@ -438,7 +440,9 @@ def run_theta_case(case, drv):
     old = py_parse(rec)
     if drv is not None:
         g = drv.ask(["grammar", w])
-        form4 = isinstance(old, tuple) and old[1] == "NoSuchRule"
+        # form 4 `(low,,up)`: a theta subtree without init (the recogniser refuses it); decided from the tree, the reader may
+        # raise for another item first
+        form4 = any(nd.find("init") is None for nd in item_nodes(rec))
         if g != ("false" if form4 else "true"):
             k.append(f"grammar recogniser: model {g} on a record lark parsed (form4={form4}): {case['rec']!r}")
         m = drv.ask(["parse", w])
@@ -630,6 +634,22 @@ def sig(x, n=12):
     return float(f"{x:.{n - 1}e}")
 
 
+def block_named_xn(rec):
+    """does a (v)xn node of the BLOCK record carry a name comment (the first COMMENT/NEWLINE after it, before the next node)?"""
+    children = list(rec.root.children)
+    for i, ch in enumerate(children):
+        if str(getattr(ch, "rule", "")) == "omega" and ch.find("n"):
+            for nxt in children[i + 1:]:
+                r = str(getattr(nxt, "rule", ""))
+                if r == "omega":
+                    break
+                if r in ("COMMENT", "NEWLINE"):
+                    if re.search(r";\s*([a-zA-Z_]\w*)", str(nxt)):
+                        return True
+                    break
+    return False
+
+
 def run_omega_case(case, drv):
     from fractions import Fraction
     k, mon, tags = [], [], ["kind:omega"]
@@ -704,6 +724,12 @@ def run_omega_case(case, drv):
             (_, inits2, fixed2, _), = rr.parse()
             if [sig(float(v)) for v in inits2] != [sig(v) for v in newcov]:
                 mon.append({"cls": "omega-block-update-readback", "what": f"{key + str(cur.root)!r} updated to {newcov} writes {text!r}, read back {list(map(float, inits2))}"})
+            names_before = cur.parse()[0][0]
+            names_after = rr.parse()[0][0]
+            if names_before != names_after:
+                split = len(list(upd.root.subtrees("omega"))) > len(list(cur.root.subtrees("omega")))
+                cls = "omega-block-repeat-split-comment" if split and block_named_xn(cur) else "omega-block-name-readback"
+                mon.append({"cls": cls, "what": f"{key + str(cur.root)!r} updated to {newcov} writes {text!r}: names {names_before} read back as {names_after}"})
             if bool(fixed2) != bool(newfix):
                 mon.append({"cls": "omega-block-fix-readback", "what": f"{key + str(cur.root)!r} updated to fix={newfix} writes {text!r}, read back fix={fixed2}"})
             if drv is not None:
